@@ -144,7 +144,7 @@ pub fn run(ctx: &Ctx) -> Report {
         st
     });
     total.exhaustive_parts.push(format!("all {n} trees with <= {max} nodes over {{true, false, -name a, -print, -quit, -fprint f}} x {{!, and, or, ','}}, each built directly and every third also through its text"));
-    let cases = ctx.tier.pick(4_000u32, 60_000u32);
+    let cases = ctx.tier.pick(60_000u32, 600_000u32);
     let rnd = run_shards(16, |shard| {
         let mut st = Stats::new();
         let leaf = prop::sample::select(leaves()).boxed();
